@@ -150,14 +150,14 @@ func recLit(t *Table, row []Val) string {
 }
 
 // buildDB creates a heap database with the scenario's tables in one physical configuration
-func buildDB(rnd *rand.Rand, sc *Scenario, musts map[string][][]string) *DB {
+func buildDB(rnd *rand.Rand, sc *Scenario, musts, wants map[string][][]string) *DB {
 	db := db19.CreateDb(stor.HeapStor(8192))
 	db19.StartConcur(db, time.Hour)
 	d := &DB{db: db, sc: sc, schemas: map[string]Schema{}, views: map[string]bool{}}
 	persist := rnd.Intn(3) // 0: all rows in memory layers, 1: all persisted to btrees, 2: mixed
 	var labels []string
 	for _, t := range sc.Tables {
-		schm := genSchema(rnd, t, musts[t.Name])
+		schm := genSchema(rnd, t, musts[t.Name], wants[t.Name])
 		d.schemas[t.Name] = schm
 		admin(db, "create "+t.Name+" ("+strings.Join(t.Cols, ",")+")"+schm.String())
 		labels = append(labels, t.Name+schm.String())
